@@ -44,15 +44,69 @@ def _subscript_chain(e: ast.AST) -> Tuple[ast.AST, List[ast.AST]]:
     return e, flat
 
 
-def _loops(pm, n) -> List[Tuple[str, str]]:
-    """Enclosing `for v in range(self.X)` loops, outer → inner, as (v, X)."""
+_DICT_ITERS = {"self.data.items()": (True, False), "self.data": (False, False), "self.data.keys()": (False, False),
+               "sorted(self.data.items())": (True, True), "sorted(self.data)": (False, True), "sorted(self.data.keys())": (False, True)}
+
+
+def _loops(pm, n) -> List[Tuple[str, str, Optional[str]]]:
+    """Enclosing loops, outer → inner, as (v, X, disorder). `for v in range(self.X)` → disorder None; a loop over the
+    per-k dictionary itself → X = 'NK' and disorder = the iterable's text unless it is sorted(...)."""
     out = []
     for fl in reversed(enclosing_all(pm, n, ast.For)):
         it = fl.iter
         if isinstance(fl.target, ast.Name) and isinstance(it, ast.Call) and call_name(it) == "range" and len(it.args) == 1:
-            out.append((fl.target.id, norm(it.args[0]).replace("self.", "")))
-        else:
-            raise AnalysisError(f"writer loop is not `for v in range(self.N)`: {norm1(fl.iter)}")
+            out.append((fl.target.id, norm(it.args[0]).replace("self.", ""), None))
+            continue
+        t = norm(it).replace(" ", "")
+        key = {k.replace(" ", ""): v for k, v in _DICT_ITERS.items()}.get(t)
+        if key is not None:
+            pairs, ordered = key
+            tv = fl.target.elts[0] if pairs and isinstance(fl.target, ast.Tuple) and len(fl.target.elts) == 2 else fl.target
+            if isinstance(tv, ast.Name):
+                out.append((tv.id, "NK", None if ordered else norm1(it)))
+                continue
+        raise AnalysisError(f"writer loop is neither `for v in range(self.N)` nor a loop over self.data: {norm1(fl.iter)}")
+    return out
+
+
+def _resolve_data_ref(du, cfg, sub: ast.Subscript, at: int) -> Optional[List[str]]:
+    """Index list [ik, …] if the subscript chain `sub` denotes an element of self.data (following local aliases such as
+    `Ak = self.data[ik]` and `for ik, Ak in self.data.items()`), else None."""
+    base, flat = _subscript_chain(sub)
+    for _ in range(6):
+        if isinstance(base, ast.Name):
+            d = du.single_def(base.id, at)
+            if d is None or d.value is None:
+                return None
+            if d.kind == "assign":
+                base, more = _subscript_chain(d.value)
+                flat = more + flat
+                at = d.node
+                continue
+            if d.kind == "for" and d.index == 1 and norm(d.value).replace(" ", "") in ("self.data.items()", "sorted(self.data.items())") \
+                    and isinstance(d.stmt.target, ast.Tuple) and isinstance(d.stmt.target.elts[0], ast.Name):
+                base = ast.parse("self.data", mode="eval").body
+                flat = [d.stmt.target.elts[0]] + flat
+                continue
+            return None
+        break
+    if norm(base) != "self.data":
+        return None
+    out = []
+    for x in flat:
+        if isinstance(x, ast.Name):
+            d = du.single_def(x.id, at)
+            if d is not None and d.kind == "assign":
+                x = du.resolve_local(x, at)
+        elif isinstance(x, ast.Subscript):
+            # index computed through a local alias, e.g. reorder[ib] with reorder = self.bk_reorder[ik]
+            b2, f2 = _subscript_chain(x)
+            if isinstance(b2, ast.Name):
+                b3 = du.resolve_local(b2, at)
+                if b3 is not b2:
+                    out.append(norm(b3) + "".join(f"[{norm(i)}]" for i in f2))
+                    continue
+        out.append(norm(x))
     return out
 
 
@@ -66,17 +120,17 @@ def _writer_layout(f):
             continue
         js = c.args[0]
         fvs = [v for v in js.values if isinstance(v, ast.FormattedValue)]
+        at = du.node_of_expr(c)
         data_subs = []
         for v in fvs:
             for s in ast.walk(v.value):
-                if isinstance(s, ast.Subscript):
-                    base, flat = _subscript_chain(s)
-                    if norm(base) == "self.data" and (pm.get(s) is None or not isinstance(pm.get(s), ast.Subscript)
-                                                      or pm.get(s).value is not s):
+                if isinstance(s, ast.Subscript) and not (isinstance(pm.get(s), ast.Subscript) and pm[s].value is s):
+                    flat = _resolve_data_ref(du, cfg, s, at)
+                    if flat is not None:
                         data_subs.append((s, flat))
         loops = _loops(pm, c)
         if data_subs:
-            idxsets = {tuple(norm(x) for x in flat) for _, flat in data_subs}
+            idxsets = {tuple(flat) for _, flat in data_subs}
             if len(idxsets) != 1:
                 raise AnalysisError(f"{f.short}: one write statement indexes self.data differently: {idxsets}")
             cols = []
@@ -91,7 +145,7 @@ def _writer_layout(f):
         elif not loops and fvs and all(norm(v.value).startswith("self.") for v in fvs):
             header_fields = [norm(v.value).replace("self.", "") for v in fvs]
     if data_layout is None:
-        raise AnalysisError(f"{f.short}: no write statement containing self.data found")
+        raise AnalysisError(f"{f.short}: no write statement containing an element of self.data found")
     return header_fields, data_layout, columns
 
 
@@ -150,7 +204,7 @@ def run(ctx) -> None:
                                      stmt=norm1(n))
                     else:
                         r1.ok(f"{m.short}: {norm1(n)} indexes the dict by k first")
-            if hits and mname == "to_w90_file":
+            if mname == "to_w90_file":
                 r1.instance(m.short)
     if ctx.thorough:
         for c in idx.subclasses(base):
@@ -261,8 +315,13 @@ def run(ctx) -> None:
         r5.instance(f"{cn}: {w.short} ↔ {rd.short}")
         whead, (loops, index, wcall), columns = _writer_layout(w)
         rhead, reshape, perm, _ = _reader_layout(rd)
-        lvars = [v for v, _ in loops]
-        lsizes = [s for _, s in loops]
+        lvars = [v for v, _, _ in loops]
+        lsizes = [s for _, s, _ in loops]
+        for v, sz, dis in loops:
+            r5.check(dis is None, f"{cn}: loop over {sz} runs in ascending index order", w, wcall,
+                     f"{cn}: the blocks are written in the iteration order of `{dis}` (dictionary insertion order), but the "
+                     f"reader numbers them 0..{sz}-1 by position in the file: an object whose keys were not inserted in "
+                     f"ascending order is read back permuted")
         if rhead is not None or whead is not None:
             r5.check(whead == rhead, f"{cn}: header fields {whead} are unpacked in the same order", w, wcall,
                      f"{cn}: header written as {whead} but read as {rhead}")
@@ -282,7 +341,7 @@ def run(ctx) -> None:
     eigc = idx.cls(W90 + "eig.py", "EIG")
     rd = eigc.methods["from_w90_file"]
     _, (loops, index, wcall), columns = _writer_layout(eigc.methods["to_w90_file"])
-    size_of = dict(loops)
+    size_of = {v: sz for v, sz, _ in loops}
     colmap = {}
     for s in stmts(rd.node):
         if isinstance(s, ast.Assign) and isinstance(s.targets[0], ast.Name) and ".max()" in norm(s.value):
@@ -352,7 +411,21 @@ SELFTEST = [
     V("AMN.equals forgets the base comparison", AMNF,
       "        iseq, message = super().equals(other, tolerance)\n        if not iseq:\n            return iseq, message\n        if self.NW != other.NW:",
       "        if self.NW != other.NW:", "fire", "R19.6"),
-    V("neutral: EIG writer with a local alias for the k block", EIGF,
+    V("seeded C19-m1: MMN neighbour index routed through bk_reorder", MMNF,
+      "                for m in range(self.NB):\n                    for n in range(self.NB):\n                        f_mmn_out.write(f\"{self.data[ik][ib, n, m].real} {self.data[ik][ib, n, m].imag}\\n\")",
+      "                Mkb = self.data[ik][self.bk_reorder[ik][ib]]\n                for m in range(self.NB):\n                    for n in range(self.NB):\n                        f_mmn_out.write(f\"{Mkb[n, m].real} {Mkb[n, m].imag}\\n\")",
+      "fire", "R19.5"),
+    V("seeded C19-m2: AMN writer walks the dictionary in insertion order", AMNF,
+      "        for ik in range(self.NK):\n            for iw in range(self.NW):", "        for ik, Ak in self.data.items():\n            for iw in range(self.NW):", "fire", "R19.5"),
+    V("neutral: AMN writer walks the dictionary in sorted order with a block alias", AMNF,
+      "        for ik in range(self.NK):\n            for iw in range(self.NW):\n                for ib in range(self.NB):\n                    f_amn_out.write(f\"{ib + 1:4d} {iw + 1:4d} {ik + 1:4d} {self.data[ik][ib, iw].real:17.12f} {self.data[ik][ib, iw].imag:17.12f}\\n\")",
+      "        for ik, Ak in sorted(self.data.items()):\n            for iw in range(self.NW):\n                for ib in range(self.NB):\n                    f_amn_out.write(f\"{ib + 1:4d} {iw + 1:4d} {ik + 1:4d} {Ak[ib, iw].real:17.12f} {Ak[ib, iw].imag:17.12f}\\n\")",
+      "silent"),
+    V("neutral: MMN writer with a local alias for the (k,b) block", MMNF,
+      "                for m in range(self.NB):\n                    for n in range(self.NB):\n                        f_mmn_out.write(f\"{self.data[ik][ib, n, m].real} {self.data[ik][ib, n, m].imag}\\n\")",
+      "                Mkb = self.data[ik][ib]\n                for m in range(self.NB):\n                    for n in range(self.NB):\n                        f_mmn_out.write(f\"{Mkb[n, m].real} {Mkb[n, m].imag}\\n\")",
+      "silent"),
+    V("neutral: EIG writer, wider number format", EIGF,
       "            for ib in range(self.NB):\n                file.write(f\" {ib + 1:4d} {ik + 1:4d} {self.data[ik][ib]:17.12f}\\n\")",
       "            for ib in range(self.NB):\n                file.write(f\" {ib + 1:4d} {ik + 1:4d} {self.data[ik][ib]:18.12f}\\n\")",
       "silent"),
